@@ -331,6 +331,16 @@ class CSSStyleDeclaration(CSS2Properties, cssutils.util.Base2):
             # does not matter in this case
             return expected
 
+        def atrule(expected, seq, token, tokenizer=None):
+            # a known at-rule which does not belong here ends like any other
+            # at-rule: with its block or its semicolon
+            ignored = self._valuestr(self._tokensupto2(tokenizer, starttoken=token))
+            self._log.error(
+                'CSSStyleDeclaration: Unexpected at-rule, ignoring %r.' % ignored,
+                token,
+            )
+            return expected
+
         def char(expected, seq, token, tokenizer=None):
             # a standalone ; or error...
             if self._tokenvalue(token) == ';':
@@ -349,7 +359,17 @@ class CSSStyleDeclaration(CSS2Properties, cssutils.util.Base2):
             expected=None,
             seq=newseq,
             tokenizer=tokenizer,
-            productions={'IDENT': ident, 'CHAR': char},
+            productions={
+                'IDENT': ident,
+                'CHAR': char,
+                'CHARSET_SYM': atrule,
+                'FONT_FACE_SYM': atrule,
+                'IMPORT_SYM': atrule,
+                'MEDIA_SYM': atrule,
+                'NAMESPACE_SYM': atrule,
+                'PAGE_SYM': atrule,
+                'VARIABLES_SYM': atrule,
+            },
             default=unexpected,
         )
         # wellformed set by parse
